@@ -99,6 +99,23 @@ func (e *Engine) VerifyFunc(fn *ssa.Function, fc *FuncContract) (res *FuncResult
 	for i, fv := range fn.FreeVars {
 		f.vals[fv] = bindings[i]
 	}
+	if p := fn.Parent(); p != nil {
+		// a captured variable that the enclosing function assigns exactly once (and that no
+		// closure assigns) keeps its value across every havoc in the closure too
+		for _, b := range p.Blocks {
+			for _, in := range b.Instrs {
+				mc, ok := in.(*ssa.MakeClosure)
+				if !ok || mc.Fn != fn {
+					continue
+				}
+				for i, bv := range mc.Bindings {
+					if a, ok := bv.(*ssa.Alloc); ok && i < len(bindings) && assignedOnceCell(a) {
+						f.immCells = append(f.immCells, immCell{bindings[i], a.Type().Underlying().(*types.Pointer).Elem()})
+					}
+				}
+			}
+		}
+	}
 	f.entry = st.clone()
 	res.Framed = fc != nil && !fc.NoFrame
 	f.framed = res.Framed
@@ -201,6 +218,11 @@ func (e *Engine) VerifyFunc(fn *ssa.Function, fc *FuncContract) (res *FuncResult
 		}
 	}
 	if fc != nil {
+		for _, cs := range fc.CS {
+			if !f.csHit[cs.Text] {
+				f.bail("bind-error: cs %s ensures %q: no critical section of %s that it applies to was executed", cs.Mutex, cs.Text, fn.Name())
+			}
+		}
 		for _, a := range fc.Asserts {
 			if strings.HasPrefix(a.Anchor, "call ") && !f.assertsHit[a.Anchor+"|"+a.Text] {
 				f.bail("bind-error: assert at %s %q: no such call site in %s", a.Anchor, a.Text, fn.Name())
